@@ -21,6 +21,7 @@ struct ObsState {
   std::string query;
   std::string dereg_why;
   int last_notif_mid = -1;
+  bool diverged = false;            // libcoap ignored a Reset the model honoured (known finding rst_older): its entry lives on with its own deferred work
   uint32_t last_obs = 0;
   bool have_obs = false, have_notif_obs = false;
   uint32_t last_notif_obs = 0;
@@ -341,6 +342,7 @@ struct C11 : Property {
         } else {
           ObsState fresh;
           fresh.datagrams_seen = s.datagrams_seen;
+          fresh.diverged = s.diverged || s.dereg_why == "rst_older";
           // (mids of the notifications of an earlier observation under this token are not carried over: a late Reset for one
           //  of them does not concern the new observation)
           s = fresh;
@@ -387,7 +389,7 @@ struct C11 : Property {
       else s.consecutive_non = 0;
       s.new_notifications++;
       int nchg = cw.changes_since(s.res, s.t_count_from);
-      if (s.new_notifications > nchg) res.violate("R7.more_notifications_than_changes", "duplicate_entry", ctx + strfmt(": %d notifications for %d changes since the (re-)registration", s.new_notifications, nchg));
+      if (s.new_notifications > nchg && !s.diverged) res.violate("R7.more_notifications_than_changes", "duplicate_entry", ctx + strfmt(": %d notifications for %d changes since the (re-)registration", s.new_notifications, nchg));
     });
     // workload
     for (auto &op : plan["ops"]) {
